@@ -199,6 +199,43 @@ def merge(pieces, real):
     return "".join(out), True
 
 
+_DANGLING = re.compile(r"let\s+(\w+)\s*=\s*/\*-\*/(\s*)let\s+(?:mut\s+)?(\w+)\s*=")
+
+
+def fix_dangling_binders(text):
+    """A template may name a result the code discards:  /*+*/let c =/*-*/ call(..);  When the current code binds that result
+    itself (`let carry = call(..);`), the merged text would read `let c = let carry = ..`. The ghost binder is then moved behind the
+    statement as `let ghost c = carry;` - ghost text only is moved, the exec tokens stay as they are (the erasure self-check
+    still runs on the result)."""
+    while True:
+        m = _DANGLING.search(text)
+        if not m:
+            return text
+        # end of the real statement: next `;` at bracket depth 0, with no ghost marker in between
+        depth, k, end = 0, m.end(), -1
+        while k < len(text):
+            c = text[k]
+            if text.startswith(GB, k):
+                break
+            if c in "([{":
+                depth += 1
+            elif c in ")]}":
+                depth -= 1
+                if depth < 0:
+                    break
+            elif c == ";" and depth == 0:
+                end = k
+                break
+            k += 1
+        if end < 0:
+            return text
+        ghost_name, ws, real_name = m.group(1), m.group(2), m.group(3)
+        head = text[:m.start()] + GE + ws
+        stmt = text[m.start():end + 1]
+        stmt = stmt[stmt.index(GE) + len(GE):].lstrip()
+        text = head + stmt + " " + GB + "let ghost " + ghost_name + " = " + real_name + ";" + GE + text[end + 1:]
+
+
 # --------------------------------------------------------------------------
 # directives
 # --------------------------------------------------------------------------
@@ -412,6 +449,8 @@ def gen_unit(unit, _stack=(), extra_imports=()):
             probs = validate_ghost(pieces, "%s::%s" % (unit, name))
             g.problems += probs
             text, changed = merge(pieces, real)
+            if changed:
+                text = fix_dangling_binders(text)
             # self-check: erasing ghost from the generated text gives the real tokens
             chk = exec_tokens(parse_region(text))
             if [t.text for t in chk] != [t.text for t in real]:
